@@ -313,6 +313,69 @@ def _ctor_order(model, an, rep, sites: List[MemoSite]):
     return n
 
 
+TRANSIENT_CONSUMERS = {"Thread", "threading.Thread", "map", "filter",
+                       "sorted", "min", "max", "reduce",
+                       "functools.reduce", "any", "all", "sum", "list",
+                       "tuple"}
+
+
+def _outlives_call(outer_node, nested) -> bool:
+    """May the nested function be alive after the enclosing call returned?
+    It does when it (or a container / partial holding it) is returned,
+    yielded, stored into an attribute, subscript or global, or handed to a
+    callee that is not known to drop it.  A function that is only called,
+    or only handed to a consumer that finishes within the enclosing call
+    (a Thread that is joined, map / sorted / min ...), takes its captured
+    variables to the grave: mutating them is per-call state."""
+    parent = {}
+    for p in ast.walk(outer_node):
+        for c in ast.iter_child_nodes(p):
+            parent[id(c)] = p
+    if isinstance(nested, ast.Lambda):
+        refs = [nested]
+    else:
+        refs = [n for n in ast.walk(outer_node)
+                if isinstance(n, ast.Name) and n.id == nested.name
+                and isinstance(n.ctx, ast.Load)]
+        # decorated nested functions: the decorator receives them
+        if nested.decorator_list:
+            return True
+    aliases = set()
+    for r in refs:
+        c, p = r, parent.get(id(r))
+        while p is not None:
+            if isinstance(p, ast.Call):
+                if c is p.func:
+                    break                      # called: result, not itself
+                callee = src(p.func)
+                if callee.split(".")[-1] in TRANSIENT_CONSUMERS or \
+                        callee in TRANSIENT_CONSUMERS:
+                    # the consumer object itself may escape (a Thread kept
+                    # in a list is still joined here): treated as transient
+                    break
+                return True
+            if isinstance(p, (ast.Return, ast.Yield, ast.YieldFrom)):
+                return True
+            if isinstance(p, (ast.Assign, ast.AnnAssign, ast.AugAssign)):
+                tg = p.targets if isinstance(p, ast.Assign) else [p.target]
+                if any(not isinstance(t, ast.Name) for t in tg):
+                    return True                # attribute / subscript store
+                aliases |= {t.id for t in tg}
+                break
+            if isinstance(p, (ast.FunctionDef, ast.Lambda)) and \
+                    p is not outer_node and p is not nested:
+                return True                    # captured by another closure
+            if isinstance(p, ast.stmt):
+                break
+            c, p = p, parent.get(id(p))
+    for a in aliases:
+        fake = ast.FunctionDef(name=a, args=None, body=[], decorator_list=[])
+        if a != getattr(nested, "name", None) and _outlives_call(outer_node,
+                                                                  fake):
+            return True
+    return False
+
+
 def _closures_and_globals(model, an, rep):
     R4 = "C15-R4"
     nclos = 0
@@ -332,7 +395,12 @@ def _closures_and_globals(model, an, rep):
                    and e.kind in ("store", "mutator", "inplace-func",
                                   "out-kw", "augassign-name")]
             cons = f"{fn.short()}.{name}:captures"
-            if bad:
+            if bad and not _outlives_call(fn.node, nested):
+                rep.ok(R4, cons, "mutates a captured variable, but the "
+                                 "function does not outlive the enclosing "
+                                 "call (only called / handed to a consumer "
+                                 "that finishes within it): per-call state")
+            elif bad:
                 seen = set()
                 for e in bad:
                     cap = sorted(r[8:] for r in e.roots
@@ -681,6 +749,10 @@ MUTANTS = [
       "Optional[ndarray]:\n"), "C15-R5"),
 ]
 TWINS = [
+    ("thread workers collect their failures in a list of the call",
+     ("skfem/assembly/form/bilinear_form.py",
+      "                    errors.append(e)",
+      "                    errors.extend([e])")),
     ("Legendre guard spelled 'not all equal'",
      (_QP, _GUARD,
       "        if self._X.shape != X.shape or not (self._X == X).all():")),
